@@ -330,6 +330,10 @@ struct H {
     acc: Vec<(u64, oneshot::Receiver<Option<Job<K, M>>>)>,
     blocked: bool,
     live: Vec<u64>,
+    /// steps in which the factory was still up at quiescence and was stopped only by the observer's own
+    /// query message (a draining factory whose last busy worker died: `handle_supervisor_evt` has no
+    /// `is_drained()` check, the next message of any kind stops it)
+    stop_by_query: u64,
 }
 
 impl H {
@@ -361,6 +365,7 @@ impl H {
     /// run to quiescence, query, run to quiescence, collect; returns (times, observation)
     async fn observe(&mut self, t_op: u128) -> (String, String) {
         self.quiesce().await;
+        let up0 = self.factory.get_status() != ActorStatus::Stopped;
         let tq = self.now();
         let (q, act, cap) = if self.blocked {
             ("?".to_string(), "?".to_string(), "?".to_string())
@@ -407,6 +412,9 @@ impl H {
         live.sort();
         self.live = live.clone();
         let up = if self.factory.get_status() == ActorStatus::Stopped { 0 } else { 1 };
+        if up0 && up == 0 && !self.blocked {
+            self.stop_by_query += 1;
+        }
         let j = |v: &[String]| v.join(",");
         let obs = format!(
             "build=[{}] start=[{}] disc=[{}] hook=[{}] acc=[{}] up={} q={} act={} cap={} live=[{}] wq={}{}",
@@ -594,7 +602,7 @@ where
     let def = Factory::<K, M, (), GW, Spy<RateLimitedRouter<R, Lim>>, Q>::default();
     let (factory, _handle) = Actor::spawn(None, def, args).await.expect("factory spawn");
     let fid = factory.get_id().pid();
-    let mut h = H { factory, fid, sh: sh.clone(), t0, acc: vec![], blocked: false, live: vec![] };
+    let mut h = H { factory, fid, sh: sh.clone(), t0, acc: vec![], blocked: false, live: vec![], stop_by_query: 0 };
     // half a millisecond off the grid of the factory's own timers
     tokio::time::sleep(Duration::from_micros(500)).await;
     let (times, obs) = h.observe(0).await;
@@ -797,6 +805,7 @@ where
         }
     }
     // tear down: stop the factory (post_stop stops the workers)
+    st.lock().unwrap().add("drained_factory_stopped_only_by_next_message", h.stop_by_query);
     h.factory.stop(None);
     for (_, tx) in h.sh.lock().unwrap().gates.drain() {
         let _ = tx.send(Outcome::Ok);
